@@ -156,6 +156,10 @@ XStep(m, code, jt, ar, v) ==
                            ELSE Branch([m EXCEPT !.vs = Pop(@)], BrTableDepth(c, Top(m.vs)), ar)
       [] o = "return"      -> Return(m, ar)
       [] o = "unreachable" -> Trap(m)
+      \* an exception nobody in this function catches ends the activation like a trap does
+      [] o = "throw"       -> Trap(m)
+      \* tail call of the (never trapping) imported op k: its effect, then this activation is over
+      [] o = "rcall"       -> Return(Emit(m, [e |-> "op", k |-> c.k]), ar)
       [] OTHER -> Stuck(m)
 
 ---------------------------------------------------------------------------
